@@ -63,9 +63,41 @@ def _const_strs(e: ast.AST) -> Optional[list[str]]:
     return None
 
 
-def reader_keys(f: FuncInfo, var: str) -> tuple[set[str], bool]:
+def reader_keys(f: FuncInfo, var: str, prog=None, depth: int = 0) -> tuple[set[str], bool]:
     keys: set[str] = set()
     dynamic = False
+    # the document handed to a helper of the class (or of the module) together with constant keys: the helper's reads of its
+    # document parameter under those key parameters, and its own constant reads
+    if prog is not None and depth < 2:
+        for n in ast.walk(f.node):
+            if not (isinstance(n, ast.Call) and any(isinstance(a, ast.Name) and a.id == var for a in n.args)):
+                continue
+            helper = None
+            if isinstance(n.func, ast.Attribute) and isinstance(n.func.value, ast.Name) and n.func.value.id in ("cls", "self") and f.cls is not None:
+                helper = prog.lookup_method(f.cls.qual, n.func.attr)
+            elif isinstance(n.func, ast.Name):
+                hq = prog.resolve_expr(f.module, n.func)
+                helper = prog.funcs.get(hq) if hq else None
+            if helper is None or helper is f:
+                continue
+            params = [p for p in helper.params() if p not in ("self", "cls")]
+            bound = dict(zip(params, n.args))
+            bound.update({k.arg: k.value for k in n.keywords if k.arg})
+            doc_params = [p for p, a in bound.items() if isinstance(a, ast.Name) and a.id == var]
+            const_params = {p: a.value for p, a in bound.items() if isinstance(a, ast.Constant) and isinstance(a.value, str)}
+            for dp in doc_params:
+                hk, hd = reader_keys(helper, dp, prog, depth + 1)
+                keys |= hk
+                for x in ast.walk(helper.node):
+                    key_expr = None
+                    if isinstance(x, ast.Subscript) and isinstance(x.value, ast.Name) and x.value.id == dp and isinstance(x.ctx, ast.Load):
+                        key_expr = x.slice
+                    elif isinstance(x, ast.Call) and call_name(x) == f"{dp}.get" and x.args:
+                        key_expr = x.args[0]
+                    elif isinstance(x, ast.Compare) and len(x.ops) == 1 and isinstance(x.ops[0], ast.In) and isinstance(x.comparators[0], ast.Name) and x.comparators[0].id == dp:
+                        key_expr = x.left
+                    if isinstance(key_expr, ast.Name) and key_expr.id in const_params:
+                        keys.add(const_params[key_expr.id])
     nested: dict[str, str] = {}  # nested function name -> parameter used as key
     for n in ast.walk(f.node):
         if isinstance(n, ast.FunctionDef) and n is not f.node:
@@ -216,7 +248,7 @@ def r1_keys(ctx) -> None:
         except AnalysisError as ex:
             how_r, rk_all = f"extracted from the syntax tree (interpretation: {str(ex)[:80]})", {}
             for i, pair in enumerate(static_pairs.get(cq, [])):
-                k_, dyn_ = reader_keys(prog.func(pair[0]), pair[1])
+                k_, dyn_ = reader_keys(prog.func(pair[0]), pair[1], prog)
                 if not k_ and not dyn_:
                     raise AnalysisError(f"{pair[0]}: no key reads of {pair[1]!r} found")
                 rk_all[() if i == 0 else ("correlation",)] = k_
